@@ -9,7 +9,7 @@ from gens import expand
 import pyref.bign as RB
 from errs import E, name as ename
 
-RULE = ("cases: function x argument sizes x exit (success, authentication failure, bad token, generator failure, injected allocation failure k = 1..n) x secret pair (two different valid secrets); "
+RULE = ("cases: function x argument sizes x exit (success incl. length queries with a NULL output, authentication failure, bad token, generator failure, injected allocation failure k = 1..n) x secret pair (two different valid secrets); "
         "non-trivial: at least one block was allocated and freed during the call; distinct by (function, exit, size class, failing allocation index)")
 LEVEL = "exploration"
 ASSUMPTIONS = ["glibc allocator interposed with --wrap; only blocks allocated during the call are snapshotted", "the two secrets take the same control path (same lengths and validity class)",
